@@ -230,22 +230,51 @@ Theorem C03_rerun_rule : forall existed overwrite,
 Proof. intros [|] [|]; reflexivity. Qed.
 Print Assumptions C03_rerun_rule.
 
-(* ---- window sizes not above the hard-coded overlap (576) are outside every theorem above.
-   The faithful model shows why: a multiple of 12 below the overlap on a shorter recording gives one
-   window that is not recognised as the last one (nwin = 2), whose stop index W - 288 cuts the
-   chunk: 12 of 200 samples are written (same on the real code, F-C03-b).  W = 576 divides by
-   zero; W < 576 with ns > W never terminates (the model runs out of fuel: None). *)
-Theorem C03_window_below_overlap_refuted : exists ns W,
-  W mod 12 = 0 /\ 0 < W /\ 1 <= ns /\
-  firstlast ns W OVERLAP = Some [(0, ns)] /\
-  kept_list ns W [(0, ns)] 0 = [(0, 12)] /\ 12 < ns /\
-  firstlast 1000 W OVERLAP = None.
+(* ---- the converter's own admissibility test is exactly the hypothesis of the theorems above ----
+   init_params refuses (AssertionError, nothing opened or written) unless nwindow is a multiple of 12
+   above the 576-sample overlap (repo 904fe91 added the second condition); every accepted window
+   therefore satisfies `576 < W`, the only window hypothesis of the tiling / lossless theorems. *)
+Theorem C03_window_admissibility : forall W,
+  params_status W = 0 <-> (W mod 12 = 0 /\ 576 < W).
+Proof. exact params_status_spec. Qed.
+Print Assumptions C03_window_admissibility.
+
+(* corollaries: for EVERY window the converter accepts *)
+Theorem C03_accepted_windows_tile : forall ns W, 1 <= ns -> params_status W = 0 ->
+  exists wins, firstlast ns W OVERLAP = Some wins /\
+  let ks := kept_list ns W wins 0 in
+  length ks = length wins /\
+  fst (nth 0 ks (0, 0)) = 0 /\ snd (nth (length ks - 1) ks (0, 0)) = ns /\
+  (forall i, (S i < length ks)%nat -> snd (nth i ks (0, 0)) = fst (nth (S i) ks (0, 0))) /\
+  (forall i, (i < length ks)%nat ->
+     0 <= fst (nth i ks (0, 0)) < snd (nth i ks (0, 0)) /\ snd (nth i ks (0, 0)) <= ns).
+Proof. intros ns W Hns HW. apply pub_tiles; [exact Hns | now apply params_status_spec]. Qed.
+Print Assumptions C03_accepted_windows_tile.
+
+Theorem C03_accepted_windows_lossless_and_inverse : forall sap ssy labels ns W data,
+  ok_gain sap = true -> ok_gain ssy = true -> params_status W = 0 ->
+  labels <> [] -> 1 <= ns -> ns = Z.of_nat (length data) ->
+  (forall r, In r data -> length r = S (length labels)) ->
+  (forall r x, In r data -> In x r -> -32768 <= x <= 32767) ->
+  exists split files,
+    process_np24 (roundtrip sap) (roundtrip ssy)
+                 (Z.of_nat (length labels)) 1 (Z.of_nat (length labels) + 1) labels ns W data
+      = Some split /\
+    split = split_spec labels (Z.of_nat (length labels) + 1) 1 data /\
+    prepare_files labels split = Some files /\
+    reconstruct files = Some data.
 Proof.
-  exists 200, 300. split; [reflexivity|]. split; [lia|]. split; [lia|].
-  split; [vm_compute; reflexivity|]. split; [vm_compute; reflexivity|].
-  split; [lia | vm_compute; reflexivity].
+  intros sap ssy labels ns W data Ha Hs HW Hl Hns Hlen Hr Hv.
+  apply C03_any_gain_split_lossless_and_inverse; try assumption. now apply params_status_spec.
 Qed.
-Print Assumptions C03_window_below_overlap_refuted.
+Print Assumptions C03_accepted_windows_lossless_and_inverse.
+
+(* why the second assertion is needed (the window arithmetic below the overlap): a window of 300 on 200
+   samples would keep 12 of them; on 1000 samples the window loop would not terminate; both are refused *)
+Example C03_example_refused_windows :
+  params_status 300 = 1 /\ params_status 576 = 1 /\ params_status 590 = 1 /\ params_status 588 = 0 /\
+  kept_list 200 300 [(0, 200)] 0 = [(0, 12)] /\ firstlast 1000 300 OVERLAP = None.
+Proof. vm_compute. repeat split. Qed.
 
 (* ---- glue: the memoised conversion the correspondence runs (Run.run_full) is `roundtrip` itself ---- *)
 Theorem C03_run_memo_sound : forall f vals v, memo_apply f (memo_table f vals) v = f v.
